@@ -27,16 +27,31 @@ out = ['# Breaking changes the checks are run against', '',
        '* `masked/`: changes that turned out not to violate the property they were aimed at (reason below); not run.', '',
        '| change | property | repo tests with the change | result | violations reported (first two) | wall s |',
        '|---|---|---|---|---|---|']
+NOTES = {
+    'revert-6c03b71-hijri-table-read-before-start':
+        'needs a tabulated Hijri rule of a particular shape (e.g. MONTHLY;INTERVAL=3;BYMONTHDAY=-24) consumed past the end of the table (k >= 128); '
+        'found by a 400 s run of the C05RT stage, caught once in three 65 s runs',
+}
 nc = nm = 0
 for n in names:
     r = res.get(n)
     if not r:
         out.append('| %s | | | not run | | |' % n)
         continue
+    masked = None
+    if n.startswith('seeded-'):
+        try:
+            masked = json.load(open('/verif/seeded/%s/meta.json' % n[7:])).get('masked_by')
+        except OSError:
+            pass
     for p, c in r['checks'].items():
         st = 'caught' if c['rc'] == 1 else ('INVALID' if r.get('invalid') else 'MISSED')
+        if st == 'MISSED' and masked:
+            st = 'no longer a violation: masked by fix %s (see meta.json)' % masked
+        if st == 'MISSED' and n in NOTES:
+            st = 'MISSED in the quick budget (%s)' % NOTES[n]
         nc += st == 'caught'
-        nm += st == 'MISSED'
+        nm += st.startswith('MISSED')
         out.append('| %s | %s | %s | %s | %s | %s |' % (n, p, r.get('repo_tests', 'as before the fix (a revert)' if n.startswith('revert-') else 'see seeded/*/meta.json' if n.startswith('seeded-') else 'not run').replace('#', '').strip() or '-', st,
                                                    '; '.join(c['sigs'][:2]), c['wall']))
 out += ['', '%d caught, %d missed.' % (nc, nm), '',
@@ -48,6 +63,10 @@ out += ['', '%d caught, %d missed.' % (nc, nm), '',
         '  task; C04 does not say when between the last start and the last exit a finished task leaves the queue.',
         '* `C10-stash-bound-off-by-one`: a 2048 byte line is then processed (truncated) instead of skipped, in every',
         '  partition alike; no overrun (the line store is never NUL-terminated by the copy). Not a C10 violation.',
+        '* `revert-a586754` (6-bit week mask): since 7e8aa89 anchors weeks on Mondays the slip drops Sundays regardless of DTSTART -',
+        '  wrong in the same way before and after a round trip, i.e. a pure recurrence-engine (C01) matter that C05\'s oracle cannot see.',
+        '* `revert-fe603f0` (COUNT rounded up to whole sets): since ed961e2 the fillers stop at the slot bound, which they clamp to the',
+        '  remaining COUNT themselves; the truncation in refill() is redundant now.',
         '* (dropped) `C10-esccpy-keeps-fold-blank`: changes how a TAB fold is unfolded, again in every partition alike.', '']
 open('/verif/mutants/README.md', 'w').write('\n'.join(out))
 print('%d caught, %d missed' % (nc, nm))
